@@ -90,7 +90,19 @@ def run(tier, replay=None):
     for t in rng.sample(tables, min(len(tables), 150 if tier == "quick" else 1500)):
         other = rng.choice([q for q in tables if q["U"] == t["U"]])
         rerun.append(dict(t, pre=other["tab"]))
-    tables += shifted + bigtabs + rerun
+    # a table with more than a thousand uniques: the disjoint union of simulated tables (uniques renumbered), variants interleaved; the relation is
+    # judged by TLC exactly as for the small ones
+    four = [t for t in tables if t["U"] == 4 and not t.get("off")]
+    huge = []
+    for rep in range(1 if tier == "quick" else 3):
+        parts = [rng.choice(four) for _ in range(870)]          # ~1700 rows; 13 q mod 880 stays injective
+        # likelihoods made distinct from part to part (else the repeated-likelihood rule zeroes nearly every row) at constant description
+        # length: nll + base, tree code + (880 - base); all values stay below the INF token
+        tab = [dict(v, idx=v["idx"] + 4 * q, nll=v["nll"] + (13 * q) % 880 if v["nll"] not in (1000, -1) else v["nll"], tlen=v["tlen"] + 880 - (13 * q) % 880)
+               for q, t in enumerate(parts) for v in t["tab"]]
+        rng.shuffle(tab)
+        huge.append({"U": 4 * len(parts), "tab": tab})
+    tables += shifted + bigtabs + rerun + huge
     for k, t in enumerate(tables):
         t["id"] = k
     # run the real stage: 1 rank (parallel pool) for all tables, 2 and 3 ranks for a sample
@@ -149,7 +161,7 @@ def run(tier, replay=None):
                     {"table": t, "P": P, "final": final})
     r.add("tables", evaluations=len(cases), nontrivial=nontriv, traces=len(cases), exhaustive_alphabet=consts, runs_P1=sum(1 for m in meta if m[0] == 1),
           runs_P2=sum(1 for m in meta if m[0] == 2), runs_P3=sum(1 for m in meta if m[0] == 3), runs_P12=sum(1 for m in meta if m[0] == 12),
-          shifted=sum(1 for m in meta if m[1].get("off")), rerun_in_same_directory=sum(1 for m in meta if m[1].get("pre")), many_uniques=sum(1 for m in meta if m[1]["U"] == 30))
+          shifted=sum(1 for m in meta if m[1].get("off")), rerun_in_same_directory=sum(1 for m in meta if m[1].get("pre")), many_uniques=sum(1 for m in meta if m[1]["U"] == 30), over_1000_uniques=sum(1 for m in meta if m[1]["U"] > 1000))
     if cases:
         k = min(len(cases) - 1, 17)
         r.sample({"table": cases[k]["tab"], "U": cases[k]["U"], "observed_rows": cases[k]["rows"], "obs": cases[k]["obs"]})
